@@ -89,6 +89,39 @@ pub fn late_registration() -> Option<(String, String)> {
     src.tree().put("x", "w", b"5".to_vec(), Variant::Buffer);
     let cache = AssetCache::with_source(src.handle());
     let _g = cache.load::<W8>("g").expect("load g");
+    // First the simple order: a notification about a file nobody uses is examined while the reloader is idle (the
+    // second wake-up of the reloader proves that the first event has been examined); then an asset reading that
+    // file is loaded; it was loaded after the notification: hot_reload does not reload it.
+    {
+        src.tree().put("y", "w", b"6".to_vec(), Variant::Buffer);
+        std::thread::sleep(std::time::Duration::from_millis(2));
+        let wakes = Arc::new(AtomicU64::new(0));
+        let w2 = wakes.clone();
+        verif::set_schedule_hook(Some(Arc::new(move |point| {
+            // point 1 = right before the reloader takes one event: the second time it gets there, the first
+            // event (they are taken in order) has been examined
+            if point == 1 {
+                w2.fetch_add(1, SeqCst);
+            }
+        })));
+        src.send(&OwnedEntry::File("y".into(), "w".into()));
+        src.send(&OwnedEntry::File("y_other".into(), "w".into()));
+        let t = std::time::Instant::now();
+        while wakes.load(SeqCst) < 2 && t.elapsed().as_millis() < 100 {
+            std::thread::sleep(std::time::Duration::from_micros(200));
+        }
+        let examined = wakes.load(SeqCst) >= 2;
+        verif::set_schedule_hook(None);
+        let y = cache.load::<W8>("y").expect("load y");
+        cache.hot_reload();
+        cache.hot_reload();
+        if examined && (y.last_reload_id() != ReloadId::NEVER || y.reloaded_global()) {
+            return Some((
+                "reloaded-without-notification".into(),
+                format!("y was loaded for the first time after the notification about its file had been sent and examined by the idle reloader: nothing was notified since, yet hot_reload reloaded y (last_reload_id {:?})", y.last_reload_id()),
+            ));
+        }
+    }
     // let the reloader register g and go back to sleep; then it dawdles when it wakes up, so that both requests
     // are queued before it looks at the first
     std::thread::sleep(std::time::Duration::from_millis(3));
